@@ -9,7 +9,7 @@ MANIFEST_ENTRY = dict(engine="EvmCosmos", design="§4 C05",
 
 
 def run(c):
-    evmrun.run_family(c, "C05", "C05", nquick=200)
+    evmrun.run_family(c, "C05", "C05", nquick=200, nrand=(0, 15000))
 
 
 def replay(path, quiet=False):
